@@ -145,9 +145,10 @@ pub fn on_run_thread<R: Send + 'static>(f: impl FnOnce() -> R + Send + 'static) 
 pub static RUN_STARTED_MS: std::sync::atomic::AtomicU64 = std::sync::atomic::AtomicU64::new(0);
 pub static RUN_LABEL: std::sync::atomic::AtomicU64 = std::sync::atomic::AtomicU64::new(0);
 
-fn now_ms() -> u64 {
-    use std::time::{SystemTime, UNIX_EPOCH};
-    SystemTime::now().duration_since(UNIX_EPOCH).map(|d| d.as_millis() as u64).unwrap_or(0)
+/// A non-zero stamp that is different for every run of this process (a counter: never a clock reading).
+pub fn next_run_stamp() -> u64 {
+    static SEQ: std::sync::atomic::AtomicU64 = std::sync::atomic::AtomicU64::new(0);
+    SEQ.fetch_add(1, std::sync::atomic::Ordering::Relaxed) + 1
 }
 
 /// CPU time consumed by this process so far, in ms (utime + stime from /proc/self/stat; 0 if unavailable).
@@ -168,16 +169,22 @@ pub fn start_watchdog() {
     std::thread::Builder::new()
         .name("watchdog".into())
         .spawn(move || {
+            // Both measurements start when the watchdog first sees a run (identified by a per-run counter value) and use
+            // the process's CPU time and the monotonic clock: a step of the wall clock (a restored or re-synchronised
+            // virtual machine) must not look like a hang.
             let mut seen_start = 0u64;
             let mut cpu_at_start = 0u64;
+            let mut mono_at_start = std::time::Instant::now();
             loop {
             std::thread::sleep(std::time::Duration::from_millis(500));
             let st = RUN_STARTED_MS.load(std::sync::atomic::Ordering::Relaxed);
-            if st != seen_start {
+            let cpu_now = cpu_ms();
+            if st != seen_start || cpu_now == 0 || cpu_at_start == 0 {
                 seen_start = st;
-                cpu_at_start = cpu_ms();
+                cpu_at_start = cpu_now;
+                mono_at_start = std::time::Instant::now();
             }
-            if st != 0 && (cpu_ms().saturating_sub(cpu_at_start) > limit_ms || now_ms().saturating_sub(st) > limit_ms * 60) {
+            if st != 0 && cpu_now != 0 && cpu_at_start != 0 && (cpu_now.saturating_sub(cpu_at_start) > limit_ms || mono_at_start.elapsed().as_millis() as u64 > limit_ms * 60) {
                 println!("@@VIOLATION property=C06 oracle=O-TERM.hang op=? msg=a single run did not finish within {} ms of CPU time (non-termination or livelock)", limit_ms);
                 use std::io::Write;
                 let _ = std::io::stdout().flush();
@@ -194,7 +201,7 @@ pub fn run_isolated(prog: &Program, prop: &'static str, verbose: bool) -> RunRes
         return threads::run_threads(prog, prop, verbose);
     }
     // every run starts from the initial collector state of a fresh thread
-    RUN_STARTED_MS.store(now_ms(), std::sync::atomic::Ordering::Relaxed);
+    RUN_STARTED_MS.store(next_run_stamp(), std::sync::atomic::Ordering::Relaxed);
     rust_cc::verif::reset_thread_state();
     alloc::begin_run();
     let mut res = run_program(prog, prop, verbose);
